@@ -24,7 +24,7 @@ func checkC15(p *Prog, r *Report) {
 	c15Units(p, r)
 	c15Table(p, r)
 	c15PTF(p, r)
-	c15Saturation(p, r)
+	c15Saturation(p, r, "C15.R3")
 	c15History(p, r)
 }
 
@@ -457,8 +457,8 @@ func consNames(cs []ivConstraint) []string {
 
 // ---------------------------------------------------------------- saturation
 
-func c15Saturation(p *Prog, r *Report) {
-	r.Rule("C15.R3", "below the groundwater table field capacity equals pore volume: the saturation routine sets W ≡ PORGES for every layer strictly below the table's layer down to the last one and a convex blend in the table's layer; the daily update imposes the saturated water content for layers at or below the table in the same branch", 3)
+func c15Saturation(p *Prog, r *Report, rule string) {
+	r.Rule(rule, "below the groundwater table field capacity equals pore volume: the saturation routine sets W ≡ PORGES for every layer strictly below the table's layer down to the last one and a convex blend in the table's layer; the daily update imposes the saturated water content for layers at or below the table in the same branch", 3)
 	x := walked(p, "hermes.setFieldCapacityWithGW")
 	if x == nil {
 		r.Ob("setFieldCapacityWithGW", "-", false, "not found")
